@@ -18,21 +18,15 @@ from __future__ import annotations
 
 import ast
 
-from .cfg import CFG, canon_atom
+from .cfg import CFG, canon_atom, canon_compare
 from .errors import AnalysisError
 
 MAX_ATOMS = 16
 
 
 def _norm_compare(e: ast.Compare):
-    """-> (positive atom text, negated?) for a single-operator comparison."""
-    op = e.ops[0]
-    l, r = ast.unparse(e.left), ast.unparse(e.comparators[0])
-    neg = {ast.IsNot: 'is', ast.NotEq: '==', ast.NotIn: 'in'}
-    for k, v in neg.items():
-        if isinstance(op, k):
-            return canon_atom(f'{l} {v} {r}'), True
-    return canon_atom(ast.unparse(e)), False
+    """-> (positive atom text, negated?) for a single-operator comparison (see cfg.canon_compare)."""
+    return canon_compare(e)
 
 
 class Worlds:
